@@ -197,7 +197,7 @@ def _main(prop: str, tier: str, seed: int, a: Any) -> int:
 		key = ob_key(r)
 		inputs = concretise(r) if r.res.verdict == 'refuted' else None
 		native: NativeOutcome | None = None
-		if inputs is not None and c is not None and not c.replay:
+		if inputs is not None and c is not None:
 			try:
 				native = check_native(c, inputs)
 			except Exception as e:  # noqa: BLE001
